@@ -26,7 +26,10 @@ def hdr(tos, op, dst, src, rdst, rsrc, seq):
 def discover(rng, mapper, gen, xid, stations, declared=None, tos=0, eth=None):
     """eth: the Ethernet source when the Discover arrives through a bridge (another station, possibly another known mapper)"""
     d = len(stations) if declared is None else declared
-    return hdr(tos, 0, 'ffffffffffff', eth or mapper, 'ffffffffffff', mapper, xid) + '%04x%04x' % (gen, d) + ''.join(stations)
+    # now and then the broadcast is delivered as unicast (an access point converting multicast to unicast): the Ethernet destination is
+    # this station or another one, the real destination stays broadcast - the list counts all the same
+    edst = rng.choice(['ffffffffffff'] * 5 + [OWN, NEAR[1]])
+    return hdr(tos, 0, edst, eth or mapper, 'ffffffffffff', mapper, xid) + '%04x%04x' % (gen, d) + ''.join(stations)
 
 
 def cases(rng, tier, X):
